@@ -178,17 +178,19 @@ def prove(prefix, rho, gens, n_vec, l_vec, c_vec):
 
 
 # ---------------------------------------------------------------- verifier
-def _unroll(proof, prefix, rho, gens, g_len, c_vec):
+def _unroll(proof, prefix, rho, gens, g_len, c_vec, pad_l=False):
     """format checks and the unrolled recursion.  -> (reason, None) for a malformed input, otherwise
-    (None, (v, gen_terms, proof_terms)):  the final equation reads  C + sum proof_terms == v*G + sum gen_terms"""
+    (None, (v, gen_terms, proof_terms)):  the final equation reads  C + sum proof_terms == v*G + sum gen_terms.
+    pad_l (used ONLY to build adversarial inputs, never for a verdict): read a non-power-of-two |c| as the next power of two
+    whose missing generators are the point at infinity."""
     h_len = len(c_vec)
     if g_len == 0 or h_len == 0:
         return "zero_len", None
-    if not is_pow2(g_len) or not is_pow2(h_len):
+    if not is_pow2(g_len) or not (is_pow2(h_len) or pad_l):
         return "not_pow2", None
     if len(gens) != g_len + h_len:
         return "gen_count", None
-    lg, lh = ilog2(g_len), ilog2(h_len)
+    lg, lh = ilog2(g_len), ilog2(h_len) if is_pow2(h_len) else h_len.bit_length()
     rounds = max(lg, lh)
     if len(proof) != 65 * rounds + 64:
         return "length", None
@@ -236,10 +238,12 @@ def verify(proof, prefix, rho, gens, g_len, c_vec, commitment):
     return verify_ex(proof, prefix, rho, gens, g_len, c_vec, commitment)[0]
 
 
-def solve_commitment(proof, prefix, rho, gens, g_len, c_vec):
+def solve_commitment(proof, prefix, rho, gens, g_len, c_vec, pad_l=False):
     """the unique commitment (None = infinity) for which a WELL-FORMED proof string satisfies the final equation;
-    raises ValueError(reason) if the string / parameters are malformed (then no commitment verifies)"""
-    why, eq = _unroll(proof, prefix, rho, gens, g_len, c_vec)
+    raises ValueError(reason) if the string / parameters are malformed (then no commitment verifies).
+    pad_l=True builds the commitment a verifier WITHOUT the power-of-two check on |c| would accept (adversarial input; the
+    specified verdict for it is still 'reject')."""
+    why, eq = _unroll(proof, prefix, rho, gens, g_len, c_vec, pad_l)
     if why is not None:
         raise ValueError(why)
     v, gen_terms, proof_terms = eq
